@@ -89,6 +89,17 @@ def gen_trace(recipe):
     # image-like data: every coordinate in 0..255 (differences of points do not fit the type)
     q = np.round(store * 8.0)
     store = np.clip(q - q.min(axis=0), 0, 255).astype(np.uint8)
+  table_fn = None
+  if sdt == 'float64':
+    # a third of the points get whole-number coordinates (kept distinct), and one more representation: a callable over a
+    # table of Python lists - rows of whole numbers are lists of ints -, so the dtype it returns depends on the rows asked for
+    k3 = max(1, n // 3)
+    R = np.round(store[:k3])
+    if len(np.unique(np.vstack([R, store[k3:]]), axis=0)) == n:
+      store = store.copy()
+      store[:k3] = R
+    table = [[int(v) for v in row] if np.all(row == np.round(row)) else [float(v) for v in row] for row in store]
+    table_fn = lambda ii, _t=table: np.array([_t[int(i)] for i in np.asarray(ii).ravel()])
   events = []
   # ---- fit under the four representations
   if kind in ('pairs', 'triplets', 'quadruplets'):
@@ -105,6 +116,8 @@ def gen_trace(recipe):
   preps = {'formed': None, 'array': store, 'list': store.tolist(), 'callable': counting}
   if sdt != 'float64':
     del preps['list']
+  if table_fn is not None:
+    preps['table'] = table_fn
   ests = {}
   exc = ''
   for rname, prep in preps.items():
@@ -220,28 +233,43 @@ def gen_trace(recipe):
       gen.fit_quiet(ests[rname], store[idx] if rname == 'formed' else idx, *rest)
     except Exception:
       pass
-  # ---- a raising callable surfaces as PreprocessorError
+  # ---- an exception raised inside a preprocessor - of ANY class: a lookup error, a failing loader (OSError), a
+  # run-time error, a user-defined one - surfaces as PreprocessorError, at fit and at query time
+  class LoaderFailed(Exception):
+    pass
+  excs = [KeyError('boom'), IndexError('boom'), RuntimeError('boom'), FileNotFoundError('boom'), AttributeError('boom'),
+          ZeroDivisionError('boom'), LoaderFailed('boom')]
 
-  def bad(idx):
-    raise KeyError('boom')
-  for (meth, size) in [('fit', size)] + methods_for(name)[:3]:
-    est = gen.CLS[name](**dict(opts, preprocessor=bad))
-    ev = {'ev': 'PreprocError', 'method': meth, 'exc': ''}
+  class Flaky:
+    def __init__(self, st):
+      self.st, self.fail = st, None
+
+    def __call__(self, ii):
+      if self.fail is not None:
+        raise self.fail
+      return self.st[np.asarray(ii, dtype=int)]
+  fl = Flaky(store)
+  est_f = gen.CLS[name](**dict(opts, preprocessor=fl))
+  fitted_ok = True
+  try:
+    gen.fit_quiet(est_f, idx, *rest)
+  except Exception:
+    fitted_ok = False
+  for (meth, msize) in [('fit', size)] + (methods_for(name)[:4] if fitted_ok else []):
+    fl.fail = excs[int(rng.integers(len(excs)))]
+    ev = {'ev': 'PreprocError', 'method': meth, 'exc': '', 'raised_inside': type(fl.fail).__name__}
     try:
       if meth == 'fit':
-        gen.fit_quiet(est, idx, *rest)
+        gen.fit_quiet(gen.CLS[name](**dict(opts, preprocessor=fl)), idx, *rest)
       else:
-        # a fitted estimator whose preprocessor raises at query time
-        est2 = ests['array']
-        est2.preprocessor_ = bad
-        T = np.zeros((2, size), dtype=int)
-        call(est2, meth, T[:, 0] if size == 1 else T)
+        T = np.zeros((2, msize), dtype=int)
+        labels = np.array([1, -1]) if (meth in ('score', 'calibrate_threshold') and kind == 'pairs') else None
+        call(est_f, meth, T[:, 0] if msize == 1 else T, labels)
     except PreprocessorError:
       ev['exc'] = 'PreprocessorError'
     except Exception as e:
       ev['exc'] = type(e).__name__
-    if meth == 'fit':
-      events.append(ev)
+    events.append(ev)
   return {'est': name, 'events': events}
 
 
